@@ -247,7 +247,7 @@ func (a *Annotations) parseFile(path, pkg string) error {
 	var cs *StructAnn
 	var cf *FuncContract
 	ln := 0
-	relfile := strings.TrimPrefix(path, "/repo/")
+	relfile := strings.TrimPrefix(path, repoDir+"/")
 	for sc.Scan() {
 		ln++
 		line := strings.TrimSpace(sc.Text())
